@@ -1,1 +1,379 @@
-// C14 harnesses: see wire.rs
+//! C14 (serde data-model level): the hand-written Serialize and Deserialize of RegisteredClaims
+//! against harness-defined Serializer / MapAccess implementations.  The JSON text level
+//! (serde_json, RFC 3339 formatting by jiff) is outside what is claimed.
+use core::fmt::{self, Display};
+use paseto_json::jiff::Timestamp;
+use paseto_json::RegisteredClaims;
+use serde_core::de::{self, DeserializeSeed, Deserializer, IntoDeserializer, MapAccess, Visitor};
+use serde_core::ser::{self, Impossible, Serialize, SerializeStruct, Serializer};
+
+// ---------------------------------------------------------------------------------- serialize
+#[derive(Debug)]
+struct E;
+impl Display for E {
+    fn fmt(&self, f: &mut fmt::Formatter<'_>) -> fmt::Result {
+        f.write_str("E")
+    }
+}
+impl std::error::Error for E {}
+impl ser::Error for E {
+    fn custom<T: Display>(_: T) -> Self {
+        E
+    }
+}
+impl de::Error for E {
+    fn custom<T: Display>(_: T) -> Self {
+        E
+    }
+}
+
+/// what a field value turned out to be: a string (by address) or a Display value (by address)
+#[derive(Clone, Copy, PartialEq, Eq)]
+enum Val {
+    None,
+    Str(*const u8, usize),
+    Disp(*const u8),
+}
+struct Rec {
+    n: usize,
+    names: [&'static str; 8],
+    vals: [Val; 8],
+    struct_name: &'static str,
+    ended: bool,
+}
+struct ValSer<'a>(&'a mut Val);
+macro_rules! unsupported {
+    ($($f:ident($($t:ty),*)),*) => {$(
+        fn $f(self $(, _: $t)*) -> Result<Self::Ok, E> { Err(E) }
+    )*};
+}
+impl<'a> Serializer for ValSer<'a> {
+    type Ok = ();
+    type Error = E;
+    type SerializeSeq = Impossible<(), E>;
+    type SerializeTuple = Impossible<(), E>;
+    type SerializeTupleStruct = Impossible<(), E>;
+    type SerializeTupleVariant = Impossible<(), E>;
+    type SerializeMap = Impossible<(), E>;
+    type SerializeStruct = Impossible<(), E>;
+    type SerializeStructVariant = Impossible<(), E>;
+    fn serialize_str(self, v: &str) -> Result<(), E> {
+        *self.0 = Val::Str(v.as_ptr(), v.len());
+        Ok(())
+    }
+    fn collect_str<T: ?Sized + Display>(self, value: &T) -> Result<(), E> {
+        // jiff::Timestamp serialises through collect_str(self); the text itself is jiff's business
+        *self.0 = Val::Disp(value as *const T as *const u8);
+        Ok(())
+    }
+    unsupported!(serialize_bool(bool), serialize_i8(i8), serialize_i16(i16), serialize_i32(i32), serialize_i64(i64), serialize_u8(u8), serialize_u16(u16),
+        serialize_u32(u32), serialize_u64(u64), serialize_f32(f32), serialize_f64(f64), serialize_char(char), serialize_bytes(&[u8]), serialize_none(),
+        serialize_unit(), serialize_unit_struct(&'static str), serialize_unit_variant(&'static str, u32, &'static str));
+    fn serialize_some<T: ?Sized + Serialize>(self, v: &T) -> Result<(), E> {
+        v.serialize(self)
+    }
+    fn serialize_newtype_struct<T: ?Sized + Serialize>(self, _: &'static str, v: &T) -> Result<(), E> {
+        v.serialize(self)
+    }
+    fn serialize_newtype_variant<T: ?Sized + Serialize>(self, _: &'static str, _: u32, _: &'static str, _: &T) -> Result<(), E> {
+        Err(E)
+    }
+    fn serialize_seq(self, _: Option<usize>) -> Result<Self::SerializeSeq, E> {
+        Err(E)
+    }
+    fn serialize_tuple(self, _: usize) -> Result<Self::SerializeTuple, E> {
+        Err(E)
+    }
+    fn serialize_tuple_struct(self, _: &'static str, _: usize) -> Result<Self::SerializeTupleStruct, E> {
+        Err(E)
+    }
+    fn serialize_tuple_variant(self, _: &'static str, _: u32, _: &'static str, _: usize) -> Result<Self::SerializeTupleVariant, E> {
+        Err(E)
+    }
+    fn serialize_map(self, _: Option<usize>) -> Result<Self::SerializeMap, E> {
+        Err(E)
+    }
+    fn serialize_struct(self, _: &'static str, _: usize) -> Result<Self::SerializeStruct, E> {
+        Err(E)
+    }
+    fn serialize_struct_variant(self, _: &'static str, _: u32, _: &'static str, _: usize) -> Result<Self::SerializeStructVariant, E> {
+        Err(E)
+    }
+}
+struct TopSer<'a>(&'a mut Rec);
+impl<'a> SerializeStruct for TopSer<'a> {
+    type Ok = ();
+    type Error = E;
+    fn serialize_field<T: ?Sized + Serialize>(&mut self, key: &'static str, value: &T) -> Result<(), E> {
+        let i = self.0.n;
+        assert!(i < 8);
+        self.0.names[i] = key;
+        let mut v = Val::None;
+        value.serialize(ValSer(&mut v))?;
+        self.0.vals[i] = v;
+        self.0.n = i + 1;
+        Ok(())
+    }
+    fn end(self) -> Result<(), E> {
+        self.0.ended = true;
+        Ok(())
+    }
+}
+impl<'a> Serializer for TopSer<'a> {
+    type Ok = ();
+    type Error = E;
+    type SerializeSeq = Impossible<(), E>;
+    type SerializeTuple = Impossible<(), E>;
+    type SerializeTupleStruct = Impossible<(), E>;
+    type SerializeTupleVariant = Impossible<(), E>;
+    type SerializeMap = Impossible<(), E>;
+    type SerializeStruct = TopSer<'a>;
+    type SerializeStructVariant = Impossible<(), E>;
+    unsupported!(serialize_bool(bool), serialize_i8(i8), serialize_i16(i16), serialize_i32(i32), serialize_i64(i64), serialize_u8(u8), serialize_u16(u16),
+        serialize_u32(u32), serialize_u64(u64), serialize_f32(f32), serialize_f64(f64), serialize_char(char), serialize_str(&str), serialize_bytes(&[u8]),
+        serialize_none(), serialize_unit(), serialize_unit_struct(&'static str), serialize_unit_variant(&'static str, u32, &'static str));
+    fn serialize_some<T: ?Sized + Serialize>(self, _: &T) -> Result<(), E> {
+        Err(E)
+    }
+    fn serialize_newtype_struct<T: ?Sized + Serialize>(self, _: &'static str, _: &T) -> Result<(), E> {
+        Err(E)
+    }
+    fn serialize_newtype_variant<T: ?Sized + Serialize>(self, _: &'static str, _: u32, _: &'static str, _: &T) -> Result<(), E> {
+        Err(E)
+    }
+    fn serialize_seq(self, _: Option<usize>) -> Result<Self::SerializeSeq, E> {
+        Err(E)
+    }
+    fn serialize_tuple(self, _: usize) -> Result<Self::SerializeTuple, E> {
+        Err(E)
+    }
+    fn serialize_tuple_struct(self, _: &'static str, _: usize) -> Result<Self::SerializeTupleStruct, E> {
+        Err(E)
+    }
+    fn serialize_tuple_variant(self, _: &'static str, _: u32, _: &'static str, _: usize) -> Result<Self::SerializeTupleVariant, E> {
+        Err(E)
+    }
+    fn serialize_map(self, _: Option<usize>) -> Result<Self::SerializeMap, E> {
+        Err(E)
+    }
+    fn serialize_struct(self, name: &'static str, _: usize) -> Result<Self::SerializeStruct, E> {
+        self.0.struct_name = name;
+        Ok(self)
+    }
+    fn serialize_struct_variant(self, _: &'static str, _: u32, _: &'static str, _: usize) -> Result<Self::SerializeStructVariant, E> {
+        Err(E)
+    }
+}
+
+fn s2() -> String {
+    let b: [u8; 2] = kani::any();
+    kani::assume(b[0] < 0x80 && b[1] < 0x80);
+    let mut v = Vec::with_capacity(2);
+    v.push(b[0]);
+    v.push(b[1]);
+    unsafe { String::from_utf8_unchecked(v) }
+}
+fn t() -> Timestamp {
+    let s: i64 = kani::any();
+    let n: i32 = kani::any();
+    kani::assume(s > -(1 << 36) && s < (1 << 36) && n >= 0 && n < 1_000_000_000);
+    Timestamp::new(s, n).unwrap()
+}
+
+/// presence of each of the 7 claims symbolic: exactly the present claims are emitted, in the order
+/// iss sub aud exp nbf iat jti, under their registered names, each carrying its own value
+#[kani::proof]
+#[kani::unwind(10)]
+fn serialize_emits_exactly_present_claims() {
+    let pres: [bool; 7] = kani::any();
+    let mut c = RegisteredClaims::default();
+    if pres[0] {
+        c.iss = Some(s2());
+    }
+    if pres[1] {
+        c.sub = Some(s2());
+    }
+    if pres[2] {
+        c.aud = Some(s2());
+    }
+    if pres[3] {
+        c.exp = Some(t());
+    }
+    if pres[4] {
+        c.nbf = Some(t());
+    }
+    if pres[5] {
+        c.iat = Some(t());
+    }
+    if pres[6] {
+        c.jti = Some(s2());
+    }
+    let mut rec = Rec { n: 0, names: [""; 8], vals: [Val::None; 8], struct_name: "", ended: false };
+    let r = c.serialize(TopSer(&mut rec));
+    assert!(r.is_ok() && rec.ended);
+    let names = ["iss", "sub", "aud", "exp", "nbf", "iat", "jti"];
+    let sv = |o: &Option<String>| match o {
+        Some(s) => Val::Str(s.as_ptr(), s.len()),
+        None => Val::None,
+    };
+    let tv = |o: &Option<Timestamp>| match o {
+        Some(t) => Val::Disp(t as *const Timestamp as *const u8),
+        None => Val::None,
+    };
+    let want = [sv(&c.iss), sv(&c.sub), sv(&c.aud), tv(&c.exp), tv(&c.nbf), tv(&c.iat), sv(&c.jti)];
+    let mut k = 0;
+    let mut i = 0;
+    while i < 7 {
+        if pres[i] {
+            assert!(k < rec.n, "a present claim was not emitted");
+            assert!(rec.names[k].as_bytes() == names[i].as_bytes(), "claim emitted under the wrong name or out of order");
+            assert!(rec.vals[k] == want[i], "claim emitted with another claim's value");
+            k += 1;
+        }
+        i += 1;
+    }
+    assert!(k == rec.n, "an absent claim was emitted");
+    kani::cover!(rec.n == 7);
+    kani::cover!(rec.n == 0);
+    core::mem::forget(c);
+}
+
+// -------------------------------------------------------------------------------- deserialize
+/// a map of up to 4 members; key k: 0..=6 the registered names, 7 an unknown name; value: null or
+/// a 1-character string drawn from the member (time-valued claims are only offered null here: their
+/// text parsing is jiff's)
+#[derive(Clone, Copy)]
+struct Member {
+    key: u8,
+    null: bool,
+    ch: u8,
+}
+struct Map {
+    m: [Member; 4],
+    len: usize,
+    pos: usize,
+}
+const NAMES: [&str; 8] = ["iss", "sub", "aud", "exp", "nbf", "iat", "jti", "zzz"];
+struct ValDe(Member);
+impl<'de> Deserializer<'de> for ValDe {
+    type Error = E;
+    fn deserialize_any<V: Visitor<'de>>(self, v: V) -> Result<V::Value, E> {
+        if self.0.null { v.visit_unit() } else { v.visit_string(one(self.0.ch)) }
+    }
+    fn deserialize_option<V: Visitor<'de>>(self, v: V) -> Result<V::Value, E> {
+        if self.0.null { v.visit_none() } else { v.visit_some(self) }
+    }
+    fn deserialize_ignored_any<V: Visitor<'de>>(self, v: V) -> Result<V::Value, E> {
+        v.visit_unit()
+    }
+    fn deserialize_str<V: Visitor<'de>>(self, v: V) -> Result<V::Value, E> {
+        v.visit_string(one(self.0.ch))
+    }
+    fn deserialize_string<V: Visitor<'de>>(self, v: V) -> Result<V::Value, E> {
+        v.visit_string(one(self.0.ch))
+    }
+    serde_core::forward_to_deserialize_any! {
+        bool i8 i16 i32 i64 i128 u8 u16 u32 u64 u128 f32 f64 char bytes byte_buf unit unit_struct newtype_struct seq tuple
+        tuple_struct map struct enum identifier
+    }
+}
+fn one(ch: u8) -> String {
+    let mut v = Vec::with_capacity(1);
+    v.push(ch & 0x7f);
+    unsafe { String::from_utf8_unchecked(v) }
+}
+impl<'de> MapAccess<'de> for Map {
+    type Error = E;
+    fn next_key_seed<K: DeserializeSeed<'de>>(&mut self, seed: K) -> Result<Option<K::Value>, E> {
+        if self.pos >= self.len {
+            return Ok(None);
+        }
+        let name: &'static str = NAMES[self.m[self.pos].key as usize];
+        seed.deserialize(de::value::BorrowedStrDeserializer::<E>::new(name)).map(Some)
+    }
+    fn next_value_seed<S: DeserializeSeed<'de>>(&mut self, seed: S) -> Result<S::Value, E> {
+        let m = self.m[self.pos];
+        self.pos += 1;
+        seed.deserialize(ValDe(m))
+    }
+}
+struct TopDe(Map);
+impl<'de> Deserializer<'de> for TopDe {
+    type Error = E;
+    fn deserialize_any<V: Visitor<'de>>(self, v: V) -> Result<V::Value, E> {
+        v.visit_map(self.0)
+    }
+    serde_core::forward_to_deserialize_any! {
+        bool i8 i16 i32 i64 i128 u8 u16 u32 u64 u128 f32 f64 char str string bytes byte_buf option unit unit_struct
+        newtype_struct seq tuple tuple_struct map struct enum identifier ignored_any
+    }
+}
+
+/// reference semantics: members applied in order; a registered name that is already Some is a
+/// duplicate error; null leaves/sets None; unknown names are skipped; result == "last value wins"
+fn map_semantics<const N: usize>() {
+    let mut m = [Member { key: 7, null: true, ch: 0 }; 4];
+    let mut i = 0;
+    while i < N {
+        let key: u8 = kani::any();
+        kani::assume(key <= 7);
+        let null: bool = kani::any();
+        let ch: u8 = kani::any();
+        // time-valued claims only with null
+        kani::assume(!(key >= 3 && key <= 5) || null);
+        m[i] = Member { key, null, ch };
+        i += 1;
+    }
+    let r = <RegisteredClaims as de::Deserialize>::deserialize(TopDe(Map { m, len: N, pos: 0 }));
+    // reference
+    let mut cur: [Option<u8>; 8] = [None; 8];
+    let mut dup = false;
+    let mut i = 0;
+    while i < N {
+        let k = m[i].key as usize;
+        if k != 7 && !dup {
+            if cur[k].is_some() {
+                dup = true;
+            } else if !m[i].null {
+                cur[k] = Some(m[i].ch & 0x7f);
+            }
+        }
+        i += 1;
+    }
+    match &r {
+        Err(_) => assert!(dup, "a map without duplicates was rejected"),
+        Ok(c) => {
+            assert!(!dup, "a duplicate of an already-set claim was accepted");
+            let chk = |o: &Option<String>, want: Option<u8>| match (o, want) {
+                (None, None) => true,
+                (Some(s), Some(w)) => s.len() == 1 && s.as_bytes()[0] == w,
+                _ => false,
+            };
+            assert!(chk(&c.iss, cur[0]) && chk(&c.sub, cur[1]) && chk(&c.aud, cur[2]) && chk(&c.jti, cur[6]));
+            assert!(c.exp.is_none() && c.nbf.is_none() && c.iat.is_none());
+        }
+    }
+    kani::cover!(r.is_ok());
+    kani::cover!(N < 2 || r.is_err());
+    core::mem::forget(r);
+}
+#[kani::proof]
+#[kani::unwind(10)]
+fn deserialize_map_n0() {
+    map_semantics::<0>();
+}
+#[kani::proof]
+#[kani::unwind(10)]
+fn deserialize_map_n1() {
+    map_semantics::<1>();
+}
+#[kani::proof]
+#[kani::unwind(10)]
+fn deserialize_map_n2() {
+    map_semantics::<2>();
+}
+#[kani::proof]
+#[kani::unwind(10)]
+fn deserialize_map_n3() {
+    map_semantics::<3>();
+}
